@@ -305,6 +305,53 @@ Definition has_type_b (p : fprog) : bool :=
   names_ok ts fs && decls_ok ts && forallb (def_ok ts fs) fs.
 Definition has_type (p : fprog) : Prop := has_type_b p = true.
 
+(* ---------- classification of ill-formed declaration types (diagnostic only) ----------
+   The real checker looks only at the HEAD name of a type inside a data/codata declaration
+   (known finding C15-lazy-declaration-types).  [has_type_lax_b] is has_type_b with exactly that
+   weakening; [tty_defect] names the shape of the first defect of a declaration type. *)
+Definition head_ok (ts : list tdecl) (ps : list fname) (t : fty) : bool :=
+  match t with
+  | FI64 => true
+  | FDecl n _ => mem n ps || is_some (find_type ts n)
+  end.
+Definition xsig_ok_lax (ts : list tdecl) (ps : list fname) (s : xsig) : bool :=
+  forallb (fun b => head_ok ts ps (fbty b)) (xs_args s)
+  && match xs_ret s with Some R => head_ok ts ps R | None => true end.
+Definition tdecl_ok_lax (ts : list tdecl) (t : tdecl) : bool :=
+  nodup (td_params t)
+  && forallb (fun p => negb (is_some (find_type ts p))) (td_params t)
+  && forallb (xsig_ok_lax ts (td_params t)) (td_xtors t).
+Definition has_type_lax_b (p : fprog) : bool :=
+  let ts := tdecls (fpdecls p) in
+  let fs := fdefs (fpdecls p) in
+  names_ok ts fs && forallb (tdecl_ok_lax ts) ts && forallb (def_ok ts fs) fs.
+
+Fixpoint tty_defect (ts : list tdecl) (ps : list fname) (top : bool) (t : fty) : option string :=
+  match t with
+  | FI64 => None
+  | FDecl n args =>
+      if mem n ps then match args with [] => None | _ => Some "param-applied" end
+      else match find_type ts n with
+           | None => Some (if top then "unknown-type-head" else "unknown-type-argument")
+           | Some td =>
+               if negb (Nat.eqb (List.length args) (List.length (td_params td))) then Some "type-arg-count"
+               else (fix go (l : list fty) : option string :=
+                       match l with
+                       | [] => None
+                       | a :: r => match tty_defect ts ps false a with Some d => Some d | None => go r end
+                       end) args
+           end
+  end.
+Definition first_some {X} (f : X -> option string) (l : list X) : option string :=
+  fold_right (fun x acc => match f x with Some d => Some d | None => acc end) None l.
+Definition decl_defect (ts : list tdecl) : option string :=
+  first_some (fun t =>
+    first_some (fun s =>
+      match first_some (fun b => tty_defect ts (td_params t) true (fbty b)) (xs_args s) with
+      | Some d => Some d
+      | None => match xs_ret s with Some R => tty_defect ts (td_params t) true R | None => None end
+      end) (td_xtors t)) ts.
+
 (* why a program is ill-typed: the first failing group of rules (diagnostic only) *)
 Definition ill_reason (p : fprog) : string :=
   let ts := tdecls (fpdecls p) in
@@ -312,7 +359,9 @@ Definition ill_reason (p : fprog) : string :=
   if negb (names_ok ts fs) then "duplicate-declaration"
   else if negb (forallb (fun t => nodup (td_params t) && forallb (fun p => negb (is_some (find_type ts p))) (td_params t)) ts)
   then "type-parameters"
-  else if negb (decls_ok ts) then "template-type-ill-formed"
+  else if negb (decls_ok ts)
+  then "template-type-ill-formed:" ++ match decl_defect ts with Some d => d | None => "other" end
+       ++ (if has_type_lax_b p then " lax=accepts" else " lax=rejects")
   else match find (fun d => negb (def_ok ts fs d)) fs with
        | Some d =>
            if nodup (map fbvar (fdctx d)) && forallb (fun b => wf_ty ts (fbty b)) (fdctx d) && wf_ty ts (fdret d)
